@@ -166,6 +166,11 @@ class CallGraph:
             return True
         if known:
             return False      # a repo class without such a method: attribute holding a callable etc.
+        root = recv
+        while isinstance(root, (ast.Attribute, ast.Subscript, ast.Call)):
+            root = root.value if not isinstance(root, ast.Call) else root.func
+        if isinstance(root, ast.Name) and root.id in f.module.imports and not (self.idx.resolve_name(f.module, root.id) or '').startswith(self.idx.pkg):
+            return False      # a call into an imported third-party / stdlib module
         if not classes or classes == ['Any'] or 'Any' in classes:
             # untyped receiver: class-hierarchy analysis by name (imprecise)
             cands = self._by_method.get(name, [])
